@@ -575,5 +575,349 @@ Section Proofs.
       - inversion E; subst. unfold pcount. cbn. destruct (is_param i); reflexivity.
       - specialize (IH pc i E). unfold pcount in *. cbn [firstn filter] in *. destruct (is_param a); cbn [List.length]; rewrite IH; lia.
     Qed.
+
+    (* ---------- phis of cloned blocks ---------- *)
+    Notation RI := (ren_inst r base nGN).
+    Notation RO := (ren_op r base nGN).
+    Lemma is_phi_op : forall i, is_phi i = true -> i_op i = "phi".
+    Proof. intros i H. unfold is_phi in H. apply String.eqb_eq in H. exact H. Qed.
+    Lemma lead_phis_clone : forall blk k, lead_phis (CL k blk) = map RI (lead_phis blk).
+    Proof.
+      induction blk as [|a blk IH]; intros k; cbn [clone_insts lead_phis map]; [reflexivity|].
+      destruct (is_phi a) eqn:Ph.
+      - pose proof (is_phi_op a Ph) as Op. rewrite Op. cbn [is_param_op String.eqb Ascii.eqb Bool.eqb existsb orb andb].
+        cbn [lead_phis]. replace (is_phi (RI a)) with true by (unfold is_phi, ren_inst; cbn [i_op]; rewrite Op; reflexivity).
+        cbn [map]. rewrite IH. reflexivity.
+      - destruct (is_param_op (i_op a)); [reflexivity|]. destruct (String.eqb (i_op a) "ret").
+        + match goal with |- lead_phis ((if ?c then _ else _) ++ _) = _ => destruct c end; [reflexivity|].
+          match goal with |- lead_phis (map _ ?l ++ _) = _ => destruct l end; reflexivity.
+        + cbn [lead_phis]. replace (is_phi (RI a)) with false by (unfold is_phi, ren_inst in *; cbn [i_op]; rewrite Ph; reflexivity). reflexivity.
+    Qed.
+
+    Lemma lead_phis_ok_gen : forall m (blk : block) i, block_ok m blk = true -> In i (lead_phis blk) ->
+      is_phi i = true /\ exists o, i_outs i = [o] /\ phi_args_ok m (i_args i) = true.
+    Proof.
+      intros m blk i K I. split; [eapply lead_phis_all; eauto|]. unfold block_ok in K.
+      apply andb_prop in K. destruct K as [K _]. apply andb_prop in K. destruct K as [K _]. apply andb_prop in K. destruct K as [_ K].
+      rewrite forallb_forall in K. specialize (K i I). destruct (i_outs i) as [|o [|]]; try discriminate. eauto.
+    Qed.
+
+    Lemma phi_src_ren : forall a j v, phi_args_ok nGN a = true -> phi_src a (N.of_nat j) = Some v ->
+      phi_src (map RO a) (N.of_nat (n + 1 + j)) = Some (RO v) /\ olab_ok v.
+    Proof.
+      fix IH 1. intros a j v Ok E. destruct a as [|[z|x|l] a]; cbn [phi_args_ok phi_src] in *; try discriminate.
+      destruct a as [|w a]; [discriminate|].
+      apply andb_prop in Ok. destruct Ok as [Ok Ok3]. apply andb_prop in Ok. destruct Ok as [Ok1 Ok2]. apply N.ltb_lt in Ok1.
+      cbn [map ren_op]. replace (N.ltb l nGN) with true by (symmetry; apply N.ltb_lt; exact Ok1). cbn [phi_src].
+      replace (N.eqb (base + l) (N.of_nat (n + 1 + j))) with (N.eqb l (N.of_nat j)).
+      2:{ unfold base, nN. destruct (N.eqb_spec l (N.of_nat j)); symmetry; [apply N.eqb_eq|apply N.eqb_neq]; lia. }
+      destruct (N.eqb l (N.of_nat j)).
+      - inversion E; subst v. split; [reflexivity|]. destruct w; cbn; auto. discriminate.
+      - apply IH; auto.
+    Qed.
+
+    Lemma phi_vals_ren : forall phis j eg ec e2 vs,
+      (forall i, In i phis -> exists o, i_outs i = [o] /\ phi_args_ok nGN (i_args i) = true) ->
+      Rel eg ec e2 -> phi_vals phis (N.of_nat j) eg = Some vs ->
+      phi_vals (map RI phis) (N.of_nat (n + 1 + j)) e2 = Some (map (fun ov => (rn (fst ov), snd ov)) vs).
+    Proof.
+      induction phis as [|i phis IH]; intros j eg ec e2 vs Hall HR E; cbn [map ISyn.phi_vals] in *.
+      - inversion E; subst. reflexivity.
+      - destruct (Hall i (or_introl eq_refl)) as [o [Ho Ha]]. unfold ren_inst at 1. cbn [i_outs i_args]. rewrite Ho in *. cbn [map].
+        destruct (phi_src (i_args i) (N.of_nat j)) as [src|] eqn:Ps; [|discriminate].
+        destruct (phi_src_ren _ _ _ Ha Ps) as [Ps' Ol]. rewrite Ps'.
+        destruct (oval eg src) as [v|] eqn:Ov; [|discriminate]. destruct (phi_vals phis (N.of_nat j) eg) as [vs'|] eqn:Pv; [|discriminate].
+        inversion E; subst vs. rewrite (oval_ren _ _ _ _ _ HR Ol Ov). rewrite (IH j eg ec e2 vs'); auto.
+        intros i' I'. apply Hall. right. exact I'.
+    Qed.
+
+    Lemma phi_vals_outs : forall phis p e vs, phi_vals phis p e = Some vs -> forall ov, In ov vs -> exists i, In i phis /\ In (fst ov) (i_outs i).
+    Proof.
+      induction phis as [|i phis IH]; intros p e vs E ov I; cbn [ISyn.phi_vals] in E.
+      - inversion E; subst. contradiction.
+      - destruct (i_outs i) as [|o [|]] eqn:Ho; try discriminate. destruct (phi_src (i_args i) p); [|discriminate].
+        destruct (oval e o0); [|discriminate]. destruct (phi_vals phis p e) as [vs'|] eqn:Pv; [|discriminate]. inversion E; subst vs.
+        destruct I as [<-|I].
+        + exists i. split; [left; reflexivity|]. rewrite Ho. left. reflexivity.
+        + destruct (IH _ _ _ Pv ov I) as [i' [A Bq]]. exists i'. split; [right; exact A|exact Bq].
+    Qed.
+
+    Lemma Rel_fold : forall (vs : list (N * Z)) eg ec e2, Rel eg ec e2 -> dom_in eg VG -> dom_in ec VF -> (forall ov, In ov vs -> In (fst ov) VG) ->
+      Rel (fold_left (fun e' ov => upd e' (fst ov) (snd ov)) vs eg) ec
+          (fold_left (fun e' ov => upd e' (fst ov) (snd ov)) (map (fun ov => (rn (fst ov), snd ov)) vs) e2) /\
+      dom_in (fold_left (fun e' ov => upd e' (fst ov) (snd ov)) vs eg) VG.
+    Proof.
+      induction vs as [|[o v] vs IH]; intros eg ec e2 HR Dg Dc Hin; cbn [fold_left map fst snd]; [auto|].
+      apply IH; [apply Rel_upd; auto; apply (Hin (o, v)); left; reflexivity|apply dom_upd; auto; apply (Hin (o, v)); left; reflexivity|auto|].
+      intros ov I. apply Hin. right. exact I.
+    Qed.
+
+    Lemma lead_phis_in : forall (blk : block) i, In i (lead_phis blk) -> In i blk.
+    Proof. induction blk as [|a blk IH]; intros i I; cbn in I; [contradiction|]. destruct (is_phi a); [|contradiction]. destruct I as [<-|I]; [left; reflexivity|right; auto]. Qed.
+
+    Lemma enter_clone : forall j j' eg ec e2 eg1 pc1, j' < nG -> Rel eg ec e2 -> dom_in eg VG -> dom_in ec VF ->
+      enter (nth_block G j') j eg = Some (eg1, pc1) ->
+      exists e21, enter (nth_block F' (n + 1 + j')) (n + 1 + j) e2 = Some (e21, pc1) /\ Rel eg1 ec e21 /\ dom_in eg1 VG.
+    Proof.
+      intros j j' eg ec e2 eg1 pc1 Lj HR Dg Dc En. unfold ISyn.enter in *.
+      destruct (phi_vals (lead_phis (nth_block G j')) (N.of_nat j) eg) as [vs|] eqn:Pv; [|discriminate]. inversion En; subst eg1 pc1. clear En.
+      rewrite F'_clone by exact Lj. unfold cloneb. fold nGN. rewrite lead_phis_clone.
+      rewrite (phi_vals_ren _ _ _ _ _ _ (fun i I => proj2 (lead_phis_ok_gen _ _ i (block_ok_G j' Lj) I)) HR Pv). rewrite map_length.
+      eexists. split; [reflexivity|]. apply Rel_fold; auto.
+      intros ov I. destruct (phi_vals_outs _ _ _ _ Pv ov I) as [i [Ii Io]].
+      apply lead_phis_in in Ii. apply In_nth_error in Ii. destruct Ii as [q Eq]. eapply G_outs; eauto.
+    Qed.
+
+    (* ---------- the assignments replacing a ret ---------- *)
+    Lemma ovals_upd_other : forall l e x v, (forall y, In (OVar y) l -> y <> x) -> ovals (upd e x v) l = ovals e l.
+    Proof.
+      induction l as [|o l IH]; intros e x v H; cbn [ISyn.ovals]; [reflexivity|].
+      rewrite IH by (intros y I; apply H; right; exact I).
+      replace (oval (upd e x v) o) with (oval e o); [reflexivity|].
+      destruct o as [z|y|l0]; cbn [ISyn.oval]; auto. unfold upd. destruct (N.eqb_spec y x) as [->|]; [exfalso; apply (H x); [left; reflexivity|reflexivity]|reflexivity].
+    Qed.
+    Lemma run_assigns : forall rv os vals bb q e2 efin pend w R,
+      List.length rv = List.length os ->
+      (forall t a, nth_error (map (fun vo : operand * N => mkI "assign" [fst vo] [snd vo]) (combine rv os)) t = Some a -> instr_at P' cf bb (q + t) = Some a) ->
+      ovals e2 rv = Some vals -> (forall y, In (OVar y) rv -> ~ In y os) ->
+      upd_many e2 os vals = Some efin ->
+      exec P' cf bb (q + List.length rv) efin pend w R -> exec P' cf bb q e2 pend w R.
+    Proof.
+      induction rv as [|o rv IH]; intros os vals bb q e2 efin pend w R Ln Hat Ov Hfr Um Ex; destruct os as [|x os]; cbn [List.length] in Ln; try discriminate.
+      - cbn [ISyn.ovals] in Ov. inversion Ov; subst vals. cbn in Um. inversion Um; subst efin. rewrite Nat.add_0_r in Ex. exact Ex.
+      - cbn [ISyn.ovals] in Ov. destruct (oval e2 o) as [v|] eqn:Oo; [|discriminate]. destruct (ovals e2 rv) as [vs|] eqn:Os; [|discriminate].
+        inversion Ov; subst vals. cbn [ISyn.upd_many] in Um.
+        eapply e_assign; [|exact Oo|].
+        + specialize (Hat 0 _ eq_refl). rewrite Nat.add_0_r in Hat. exact Hat.
+        + apply (IH os vs bb (S q) (upd e2 x v) efin pend w R); [lia| | | |exact Um|].
+          * intros t a E. replace (S q + t) with (q + S t) by lia. apply Hat. cbn [combine map nth_error]. exact E.
+          * rewrite ovals_upd_other; [exact Os|]. intros y I ->. apply (Hfr x); [right; exact I|left; reflexivity].
+          * intros y I J. apply (Hfr y); [right; exact I|right; exact J].
+          * replace (S q + List.length rv) with (q + S (List.length rv)) by lia. exact Ex.
+    Qed.
+
+    (* ---------- instructions of the clone ---------- *)
+    Lemma instr_G : forall j pc i, instr_at P' g j pc = Some i -> nth_error (nth_block G j) pc = Some i.
+    Proof. intros j pc i E. unfold instr_at in E. rewrite P'_g in E. exact E. Qed.
+    Lemma instr_F' : forall b pc, instr_at P' cf b pc = nth_error (nth_block F' b) pc.
+    Proof. intros. unfold instr_at. rewrite P'_cf. reflexivity. Qed.
+
+    Lemma head_clone : forall j pc i, nth_error (nth_block G j) pc = Some i -> is_param i = false -> is_op "ret" i = false ->
+      instr_at P' cf (n + 1 + j) pc = Some (RI i).
+    Proof.
+      intros j pc i E Pm Rt. rewrite instr_F'. pose proof (clone_at j pc i 0 E (blockG_lt _ _ _ E)) as C. rewrite Nat.add_0_r in C. rewrite C.
+      cbn [clone_insts]. unfold is_param in Pm. unfold is_op in Rt. rewrite Pm, Rt. reflexivity.
+    Qed.
+    Lemma head_param : forall j pc i, nth_error (nth_block G j) pc = Some i -> is_param i = true ->
+      instr_at P' cf (n + 1 + j) pc = Some (mkI "assign" [nth (pcount (firstn pc (nth_block G j))) bind (OLit 0)] (map rn (i_outs i))).
+    Proof.
+      intros j pc i E Pm. rewrite instr_F'. pose proof (clone_at j pc i 0 E (blockG_lt _ _ _ E)) as C. rewrite Nat.add_0_r in C. rewrite C.
+      cbn [clone_insts]. unfold is_param in Pm. rewrite Pm. reflexivity.
+    Qed.
+    Lemma ret_clone : forall j pc i q, nth_error (nth_block G j) pc = Some i -> is_op "ret" i = true ->
+      instr_at P' cf (n + 1 + j) (pc + q) =
+      nth_error (map (fun vo : operand * N => mkI "assign" [fst vo] [snd vo]) (combine (map RO (removelast (i_args i))) outs) ++ [mkI "jmp" [OLab nN] []]) q
+      \/ List.length (map (fun vo : operand * N => mkI "assign" [fst vo] [snd vo]) (combine (map RO (removelast (i_args i))) outs)) < q.
+    Proof.
+      intros j pc i q E Rt.
+      set (asg := map (fun vo : operand * N => mkI "assign" [fst vo] [snd vo]) (combine (map RO (removelast (i_args i))) outs)).
+      destruct (Nat.lt_ge_cases (List.length asg) q) as [Lq|Lq]; [right; exact Lq|left].
+      rewrite instr_F'. rewrite (clone_at j pc i q E (blockG_lt _ _ _ E)).
+      cbn [clone_insts]. assert (Pm : is_param_op (i_op i) = false).
+      { unfold is_op in Rt. apply String.eqb_eq in Rt. rewrite Rt. reflexivity. }
+      unfold is_op in Rt. rewrite Pm, Rt.
+      destruct (G_ret _ _ _ E Rt) as [Ln [Nl [Ne Eo]]].
+      assert (Frv : filter (fun o => match o with OLab _ => false | _ => true end) (removelast (map RO (i_args i))) = map RO (removelast (i_args i))).
+      { assert (Rm : forall l : list operand, removelast (map RO l) = map RO (removelast l)).
+        { induction l as [|a [|a2 l] IHl]; cbn [map removelast]; auto. cbn [map removelast] in IHl. rewrite IHl. reflexivity. }
+        rewrite Rm. clear -Nl. induction (removelast (i_args i)) as [|a l IH]; cbn [map filter]; [reflexivity|]. inversion Nl; subst.
+        destruct a; cbn [ren_op]; try contradiction; rewrite IH; auto. }
+      rewrite Frv.
+      assert (Easg : (if match map RO (removelast (i_args i)) with [] => true | _ => false end then []
+                      else map (fun vo : operand * N => mkI "assign" [fst vo] [snd vo]) (combine (map RO (removelast (i_args i))) outs)) = asg).
+      { unfold asg. destruct (map RO (removelast (i_args i))); reflexivity. }
+      rewrite Easg. rewrite app_assoc. rewrite nth_error_app1; [reflexivity|]. rewrite app_length. cbn [List.length]. lia.
+    Qed.
+
+    Lemma modelled_false : forall op, modelled op = false ->
+      is_param_op op = false /\ String.eqb op "ret" = false /\ String.eqb op "phi" = false /\ String.eqb op "jmp" = false /\ String.eqb op "jnz" = false.
+    Proof.
+      intros op H. unfold modelled in H. cbn [existsb] in H. repeat (apply orb_false_iff in H; destruct H as [? H]).
+      unfold is_param_op. cbn [existsb]. repeat split; auto. repeat (apply orb_false_iff; split); auto.
+    Qed.
+    Lemma ovals_app : forall e l1 l2 v1 v2, ovals e l1 = Some v1 -> ovals e l2 = Some v2 -> ovals e (l1 ++ l2) = Some (v1 ++ v2).
+    Proof.
+      induction l1 as [|o l1 IH]; intros l2 v1 v2 E1 E2; cbn [ISyn.ovals app] in *.
+      - inversion E1; subst. exact E2.
+      - destruct (oval e o); [|discriminate]. destruct (ovals e l1) as [vs|] eqn:Q; [|discriminate]. inversion E1; subst.
+        rewrite (IH l2 vs v2 eq_refl E2). reflexivity.
+    Qed.
+    Lemma ovals_nth : forall e l vs k v rest, ovals e l = Some vs -> skipn k vs = v :: rest -> oval e (nth k l (OLit 0)) = Some v.
+    Proof.
+      induction l as [|o l IH]; intros vs k v rest E Sk; cbn [ISyn.ovals] in E.
+      - inversion E; subst. destruct k; discriminate.
+      - destruct (oval e o) as [vo|] eqn:Oo; [|discriminate]. destruct (ovals e l) as [vs'|] eqn:Q; [|discriminate]. inversion E; subst vs.
+        destruct k; cbn [skipn nth] in *; [inversion Sk; subst; exact Oo|]. eapply IH; eauto.
+    Qed.
+    Lemma skipn_S : forall (A : Type) (l : list A) k v rest, skipn k l = v :: rest -> skipn (S k) l = rest.
+    Proof. induction l as [|a l IH]; intros k v rest E; destruct k; cbn [skipn] in *; try discriminate; [inversion E; reflexivity|]. eapply IH; eauto. Qed.
+
+    (* ---------- the clone simulates the callee ---------- *)
+    Lemma post_nophi : lead_phis post = [].
+    Proof.
+      unfold post. destruct (skipn (S idx) B) as [|a t] eqn:Sk; [reflexivity|]. cbn [lead_phis].
+      destruct (is_phi a) eqn:Ph; [|reflexivity]. exfalso.
+      assert (Ea : nth_error B (S idx) = Some a) by (rewrite <- (Nat.add_0_r (S idx)), <- nth_error_skipn', Sk; reflexivity).
+      pose proof (block_ok_F sb sb_lt) as K. fold B in K. unfold block_ok in K.
+      apply andb_prop in K. destruct K as [K _]. apply andb_prop in K. destruct K as [K _]. apply andb_prop in K. destruct K as [K _].
+      rewrite forallb_forall in K. unfold body_of in K.
+      destruct (lead_pre B idx _ (mkI "jmp" [OLab base] []) Hinv eq_refl eq_refl) as [_ Bd].
+      assert (I : In a (skipn (List.length (lead_phis B)) B)).
+      { apply (nth_error_In _ (S idx - List.length (lead_phis B))). rewrite nth_error_skipn'. replace (List.length (lead_phis B) + (S idx - List.length (lead_phis B))) with (S idx) by lia. exact Ea. }
+      specialize (K a I). rewrite Ph in K. discriminate.
+    Qed.
+
+    Lemma clone_sim : forall ec pend_c R bindvals,
+      dom_in ec VF -> ovals ec bind = Some bindvals ->
+      forall f j pc eg pendg w res, exec P' f j pc eg pendg w res -> f = g ->
+      forall e2, Rel eg ec e2 -> dom_in eg VG ->
+      (j = 0 -> pendg = skipn (pcount (firstn pc (nth_block G 0))) bindvals) ->
+      match res with
+      | RRet vals w' => forall ecv efin, upd_many ec outs vals = Some ecv -> ecv <<= efin -> exec P' cf n 0 efin pend_c w' R
+      | RHalt op vs w' => R = RHalt op vs w'
+      end ->
+      exec P' cf (n + 1 + j) pc e2 pend_c w R.
+    Proof.
+      intros ec pend_c R bindvals Dc Hbind f j pc eg pendg w res Hex.
+      induction Hex; intros Hf e2 HR Dg Hp HK; subst f.
+      - (* assign *)
+        pose proof (instr_G _ _ _ H) as E.
+        pose proof (head_clone _ _ _ E eq_refl eq_refl) as Hc. cbn [ren_inst i_op i_args i_outs map] in Hc.
+        pose proof (G_nolab _ _ _ E eq_refl) as Nl. cbn [i_args] in Nl. inversion Nl; subst.
+        eapply e_assign; [exact Hc|eapply oval_ren; eauto|].
+        apply IHHex; auto.
+        + apply Rel_upd; auto. eapply G_outs; eauto. left. reflexivity.
+        + apply dom_upd; auto. eapply G_outs; eauto. left. reflexivity.
+        + intros ->. rewrite (pcount_S _ _ _ E). cbn. rewrite Nat.add_0_r. auto.
+      - (* param *)
+        pose proof (instr_G _ _ _ H) as E.
+        assert (Pm : is_param (mkI op [] [o]) = true) by exact H0.
+        destruct (G_param _ _ _ E Pm) as [-> _].
+        pose proof (head_param _ _ _ E Pm) as Hc. cbn [i_outs map] in Hc.
+        specialize (Hp eq_refl). symmetry in Hp.
+        eapply e_assign; [exact Hc| |].
+        + eapply oval_ext; [destruct HR as [_ HR2]; exact HR2|]. eapply ovals_nth; eauto.
+        + apply IHHex; auto.
+          * apply Rel_upd; auto. eapply G_outs; eauto. left. reflexivity.
+          * apply dom_upd; auto. eapply G_outs; eauto. left. reflexivity.
+          * intros _. rewrite (pcount_S _ _ _ E). rewrite Pm. rewrite Nat.add_1_r. symmetry. eapply skipn_S; eauto.
+      - (* ext *)
+        pose proof (instr_G _ _ _ H) as E.
+        destruct (modelled_false _ H0) as [M1 [M2 [M3 [M4 M5]]]].
+        pose proof (head_clone _ _ _ E M1 M2) as Hc.
+        assert (Nl : Forall olab_ok (i_args i)) by (apply (G_nolab _ _ _ E); unfold is_phi, is_op; rewrite M3, M4, M5; reflexivity).
+        destruct (Rel_upd_many _ _ _ _ _ _ HR Dg Dc (fun o0 I => G_outs _ _ _ o0 E I) H3) as [e21 [U2 [HR2 Dg2]]].
+        eapply e_ext; [exact Hc|exact H0|cbn [ren_inst i_args]; eapply ovals_ren; eauto|exact H2|exact U2|].
+        apply IHHex; auto.
+        intros ->. rewrite (pcount_S _ _ _ E). unfold is_param. rewrite M1, Nat.add_0_r. auto.
+      - (* halt *)
+        pose proof (instr_G _ _ _ H) as E.
+        destruct (modelled_false _ H0) as [M1 [M2 [M3 [M4 M5]]]].
+        pose proof (head_clone _ _ _ E M1 M2) as Hc.
+        assert (Nl : Forall olab_ok (i_args i)) by (apply (G_nolab _ _ _ E); unfold is_phi, is_op; rewrite M3, M4, M5; reflexivity).
+        cbn in HK. subst R.
+        change (i_op i) with (i_op (RI i)). eapply e_halt; [exact Hc|exact H0|cbn [ren_inst i_args]; eapply ovals_ren; eauto|exact H2].
+      - (* jmp *)
+        pose proof (instr_G _ _ _ H) as E.
+        pose proof (head_clone _ _ _ E eq_refl eq_refl) as Hc. cbn [ren_inst i_op i_args i_outs map ren_op] in Hc.
+        pose proof (block_ok_G _ (blockG_lt _ _ _ E)) as K. unfold block_ok in K. apply andb_prop in K. destruct K as [_ K].
+        rewrite forallb_forall in K. specialize (K _ (nth_error_In _ _ E)). cbn in K. apply N.ltb_lt in K.
+        replace (N.ltb l nGN) with true in Hc by (symmetry; apply N.ltb_lt; exact K).
+        rewrite P'_g in H0.
+        assert (Ll : N.to_nat l < nG) by (unfold nGN in K; lia).
+        destruct (enter_clone b (N.to_nat l) _ _ _ _ _ Ll HR Dg Dc H0) as [e21 [En [HR2 Dg2]]].
+        assert (Lz : N.to_nat l <> 0). { pose proof (G_nozero _ _ _ l E eq_refl (or_introl eq_refl)). lia. }
+        eapply e_jmp; [exact Hc| |].
+        + rewrite P'_cf. replace (N.to_nat (base + l)) with (n + 1 + N.to_nat l) by (unfold base, nN; lia). exact En.
+        + replace (N.to_nat (base + l)) with (n + 1 + N.to_nat l) by (unfold base, nN; lia).
+          apply IHHex; auto. intros Z0. contradiction.
+      - (* jnz *)
+        pose proof (instr_G _ _ _ H) as E.
+        pose proof (head_clone _ _ _ E eq_refl eq_refl) as Hc. cbn [ren_inst i_op i_args i_outs map ren_op] in Hc.
+        pose proof (block_ok_G _ (blockG_lt _ _ _ E)) as K. unfold block_ok in K. apply andb_prop in K. destruct K as [_ K].
+        rewrite forallb_forall in K. specialize (K _ (nth_error_In _ _ E)). cbn in K.
+        apply andb_prop in K. destruct K as [K K3]. apply andb_prop in K. destruct K as [K1 K2]. apply N.ltb_lt in K1. apply N.ltb_lt in K2.
+        replace (N.ltb t nGN) with true in Hc by (symmetry; apply N.ltb_lt; exact K1).
+        replace (N.ltb fl nGN) with true in Hc by (symmetry; apply N.ltb_lt; exact K2).
+        rewrite P'_g in H1.
+        assert (Kl : (l < nGN)%N) by (unfold l; destruct (Z.eqb v 0); auto).
+        assert (Ll : N.to_nat l < nG) by (unfold nGN in Kl; lia).
+        destruct (enter_clone b (N.to_nat l) _ _ _ _ _ Ll HR Dg Dc H1) as [e21 [En [HR2 Dg2]]].
+        assert (Lz : N.to_nat l <> 0).
+        { assert (l <> 0%N); [|lia]. apply (G_nozero _ _ _ l E eq_refl). unfold l. cbn [i_args]. destruct (Z.eqb v 0); [right; right; left|right; left]; reflexivity. }
+        assert (Oc : olab_ok c) by (destruct c; cbn; auto; discriminate).
+        eapply e_jnz; [exact Hc|eapply oval_ren; eauto| |].
+        + rewrite P'_cf. cbv zeta.
+          replace (N.to_nat (if Z.eqb v 0 then (base + fl)%N else (base + t)%N)) with (n + 1 + N.to_nat l) by (unfold l, base, nN; destruct (Z.eqb v 0); lia).
+          exact En.
+        + cbv zeta.
+          replace (N.to_nat (if Z.eqb v 0 then (base + fl)%N else (base + t)%N)) with (n + 1 + N.to_nat l) by (unfold l, base, nN; destruct (Z.eqb v 0); lia).
+          apply IHHex; auto. intros Z0. contradiction.
+      - (* djmp: excluded *)
+        pose proof (instr_G _ _ _ H) as E. pose proof (G_nodjmp _ _ _ E) as Q. discriminate.
+      - (* invoke of another function inside the callee *)
+        pose proof (instr_G _ _ _ H) as E.
+        pose proof (head_clone _ _ _ E eq_refl eq_refl) as Hc. cbn [ren_inst i_op i_args i_outs map ren_op] in Hc.
+        replace (N.ltb (FB + N.of_nat g0) nGN) with false in Hc by (symmetry; apply N.ltb_ge; unfold nGN; lia).
+        pose proof (G_nolab _ _ _ E eq_refl) as Nl. cbn [i_args] in Nl. inversion Nl; subst.
+        destruct (Rel_upd_many _ _ _ _ _ _ HR Dg Dc (fun o0 I => G_outs _ _ _ o0 E I) H1) as [e21 [U2 [HR2 Dg2]]].
+        eapply e_invoke; [exact Hc|eapply ovals_ren; eauto|exact Hex1|exact U2|].
+        apply IHHex2; auto.
+        intros ->. rewrite (pcount_S _ _ _ E). cbn. rewrite Nat.add_0_r. auto.
+      - (* invoke that halts *)
+        pose proof (instr_G _ _ _ H) as E.
+        pose proof (head_clone _ _ _ E eq_refl eq_refl) as Hc. cbn [ren_inst i_op i_args i_outs map ren_op] in Hc.
+        replace (N.ltb (FB + N.of_nat g0) nGN) with false in Hc by (symmetry; apply N.ltb_ge; unfold nGN; lia).
+        pose proof (G_nolab _ _ _ E eq_refl) as Nl. cbn [i_args] in Nl. inversion Nl; subst.
+        cbn in HK. subst R.
+        eapply e_invoke_halt; [exact Hc|eapply ovals_ren; eauto|exact Hex].
+      - (* ret: assignments to the call-site outputs, then jump to the continuation *)
+        pose proof (instr_G _ _ _ H) as E.
+        destruct (G_ret _ _ _ E eq_refl) as [Ln [Nl [Ne _]]]. cbn [i_args] in *.
+        cbn in HK.
+        assert (Ov2 : ovals e2 (map RO (removelast args0)) = Some vals).
+        { eapply ovals_ren; eauto. eapply Forall_impl; [|exact Nl]. intros a Ha. destruct a; cbn; auto. contradiction. }
+        destruct HR as [HR1 HR2].
+        assert (Lv : List.length vals = List.length outs).
+        { rewrite <- Ln. clear -H0. revert vals H0. induction (removelast args0) as [|a l IH]; intros vals H0; cbn [ISyn.ovals] in H0.
+          - inversion H0; reflexivity.
+          - destruct (oval e a); [|discriminate]. destruct (ovals e l) as [vs|] eqn:Q; [|discriminate]. inversion H0; subst. cbn. f_equal. apply IH. reflexivity. }
+        assert (Um : exists ecv, upd_many ec outs vals = Some ecv).
+        { clear -Lv. revert vals ec Lv. induction outs as [|x os IH]; intros vals ec Lv; destruct vals as [|v vals]; cbn in Lv; try discriminate; cbn [ISyn.upd_many]; eauto. }
+        destruct Um as [ecv Um].
+        destruct (upd_many_ext _ _ _ _ _ HR2 Um) as [efin [Um2 Hext]].
+        set (rv := map RO (removelast args0)) in *.
+        eapply (run_assigns rv outs vals (n + 1 + b) pc e2 efin); [unfold rv; rewrite map_length; exact Ln| |exact Ov2| |exact Um2|].
+        + intros t a Et. destruct (ret_clone _ _ _ t E eq_refl) as [Q|Q].
+          * rewrite Q. cbn [i_args]. fold rv. rewrite nth_error_app1; [exact Et|]. eapply nth_error_lt; eauto.
+          * exfalso. cbn [i_args] in Q. fold rv in Q. pose proof (nth_error_lt _ _ _ _ Et). lia.
+        + intros y Iy Jy. unfold rv in Iy. apply in_map_iff in Iy. destruct Iy as [a [Ea Ia]].
+          destruct a as [z|x|l0]; cbn [ren_op] in Ea; try discriminate.
+          * inversion Ea; subst y. apply (rn_fresh x).
+            -- eapply in_vars; [exact E|eapply blockG_lt; eauto|]. apply arg_in_vars. cbn [i_args].
+               clear -Ia. induction args0 as [|a0 [|a1 l] IH]; cbn [removelast] in Ia; try contradiction. destruct Ia as [<-|Ia]; [left; reflexivity|right; apply IH; exact Ia].
+            -- eapply in_vars; [exact Hinv|exact sb_lt|]. apply out_in_vars. exact Jy.
+          * destruct (N.ltb l0 nGN); discriminate.
+        + (* the jump to the continuation *)
+          destruct (ret_clone _ _ _ (List.length rv) E eq_refl) as [Q|Q].
+          2:{ cbn [i_args] in Q. fold rv in Q. rewrite map_length, combine_length in Q. unfold rv in Q at 2. rewrite map_length in Q. lia. }
+          cbn [i_args] in Q. fold rv in Q. rewrite nth_error_app2 in Q; [|rewrite map_length, combine_length; unfold rv; rewrite map_length; lia].
+          replace (List.length rv - List.length (map (fun vo : operand * N => mkI "assign" [fst vo] [snd vo]) (combine rv outs))) with 0 in Q
+            by (rewrite map_length, combine_length; unfold rv; rewrite map_length; lia).
+          cbn [nth_error] in Q.
+          eapply e_jmp; [exact Q| |].
+          * rewrite P'_cf. unfold nN. rewrite Nat2N.id. rewrite F'_ret. unfold ISyn.enter. rewrite post_nophi. cbn. reflexivity.
+          * unfold nN. rewrite Nat2N.id. apply (HK ecv efin Um Hext).
+    Qed.
   End Inline.
 End Proofs.
